@@ -781,50 +781,46 @@ Proof.
   nxt H q Hq. apply div_inv in Hq. destruct Hq as [_ ->]. injection H as <-. simpl. auto.
 Qed.
 
-(* REFUTED part of the statement: LineFitWLS.y_from_x and LineFitRWLS.y_from_x declare their
-   noise input without `independent`: whatever the arguments, they never return a value. *)
-Theorem wls_rwls_y_from_x_no_independent ssr df sy ps :
-  (g_WLS_y_from_x RNum ssr df sy = Ok ps \/ g_RWLS_y_from_x RNum ssr df sy = Ok ps) -> ps_indep ps = None.
+(* LineFitWLS.y_from_x and LineFitRWLS.y_from_x (repaired: they used to omit `independent`, and the
+   RWLS noise was scaled by sqrt(s_y*ssr/df)): the noise input is a dependent input of value 0 with
+   u = s_y (WLS: the stated response uncertainty) resp. s_y*sqrt(ssr/df) (RWLS: the scale factor
+   times the residual scale) *)
+Theorem wls_y_from_x_input ssr df sy ps :
+  g_WLS_y_from_x RNum ssr df sy = Ok ps -> ps_x ps = 0 /\ ps_u ps = sy /\ ps_indep ps = Some false.
+Proof. unfold g_WLS_y_from_x. intros H. injection H as <-. simpl. auto. Qed.
+
+Theorem wls_y_from_x_total ssr df sy : exists ps, g_WLS_y_from_x RNum ssr df sy = Ok ps.
+Proof. eexists. reflexivity. Qed.
+
+Theorem rwls_y_from_x_input ssr d sy ps :
+  g_RWLS_y_from_x RNum ssr (DFin d) sy = Ok ps ->
+  ps_x ps = 0 /\ ps_u ps = sy * sqrt (ssr / d) /\ 0 <= ssr / d /\ ps_indep ps = Some false.
 Proof.
-  intros [H|H].
-  - unfold g_WLS_y_from_x in H. injection H as <-. reflexivity.
-  - unfold g_RWLS_y_from_x in H. nxt H q Hq. nxt H m Hm. injection H as <-. reflexivity.
+  unfold g_RWLS_y_from_x. intros H. nxt H q Hq. apply div_df_inv in Hq. destruct Hq as (v & Ev & Hv & ->).
+  injection Ev as <-. nxt H m Hm. apply sqrt_inv in Hm. destruct Hm as [H0 ->]. injection H as <-. simpl. auto.
 Qed.
 
-Theorem y_from_x_never_returns (st : fstate (T RNum)) (f : fit (T RNum)) x extra sl yl :
-  ft_cls f = CWLS \/ ft_cls f = CRWLS ->
-  exists e, snd (do_y_from_x RNum st f x extra sl yl) = OutExn e.
+Theorem y_from_x_total ssr d sy :
+  d <> 0 -> 0 <= ssr / d ->
+  (exists ps, g_OLS_y_from_x RNum ssr (DFin d) = Ok ps) /\ (exists ps, g_RWLS_y_from_x RNum ssr (DFin d) sy = Ok ps).
 Proof.
-  intros Hc. unfold do_y_from_x. cbv zeta.
-  match goal with |- context [match ?t with Ok _ => _ | Err _ => _ end] => destruct t as [r|e] eqn:E end;
-    [|eexists; reflexivity].
-  exfalso. unfold pred_prefix in E.
-  nxt E r1 Hg1. destruct r1 as [[? a] ?]. nxt E r2 Hg2. destruct r2 as [[? b] ?].
-  nxt E d Ed. nxt E ps Eps. nxt E r3 Hg3.
-  assert (Hi : ps_indep ps = None).
-  { cbv beta in Eps. destruct Hc as [Hc|Hc]; rewrite Hc in Eps; unfold pred_spec_y in Eps;
-      destruct extra; try discriminate; eapply wls_rwls_y_from_x_no_independent; eauto. }
-  unfold declare_extra in Hg3. rewrite Hi in Hg3. discriminate.
+  intros Hd Hq. split.
+  - unfold g_OLS_y_from_x, div_df. rewrite div_ok by exact Hd. cbn [bind]. rewrite sqrt_ok by exact Hq.
+    cbn [bind]. eexists. reflexivity.
+  - unfold g_RWLS_y_from_x, div_df. rewrite div_ok by exact Hd. cbn [bind]. rewrite sqrt_ok by exact Hq.
+    cbn [bind]. eexists. reflexivity.
 Qed.
 
-(* the scale of the RWLS noise term is not the one x_from_y uses *)
-Theorem rwls_scale_refuted :
-  exists ssr d sy ps1 ps2,
-    g_RWLS_y_from_x RNum ssr (DFin d) sy = Ok ps1 /\
-    g_RWLS_x_from_y RNum ssr (DFin d) [0] sy = Ok ps2 /\
-    ps_u ps1 = 2 /\ ps_u ps2 = 4.
+(* the RWLS noise scale is now the one x_from_y uses for a single observation (p = 1):
+   both are s_y * sqrt(ssr/df) *)
+Theorem rwls_scale_consistent ssr d sy y0 ps1 ps2 :
+  g_RWLS_y_from_x RNum ssr (DFin d) sy = Ok ps1 ->
+  g_RWLS_x_from_y RNum ssr (DFin d) [y0] sy = Ok ps2 ->
+  ps_u ps1 = ps_u ps2.
 Proof.
-  exists 1, 1, 4.
-  assert (S4 : sqrt 4 = 2) by (replace 4 with (2 * 2) by lra; apply sqrt_square; lra).
-  eexists. eexists. split; [|split].
-  - unfold g_RWLS_y_from_x. unfold div_df. rewrite div_ok by lra. cbn [bind]. rewrite sqrt_ok by (simpl; lra).
-    cbn [bind]. reflexivity.
-  - unfold g_RWLS_x_from_y. cbv zeta. cbn [fsum RNum bind fold_right]. unfold zlen. simpl length. simpl Z.of_nat.
-    rewrite div_ok by (simpl; lra). cbn [bind]. unfold div_df. rewrite div_ok by lra. cbn [bind].
-    rewrite div_ok by (simpl; lra). cbn [bind]. rewrite sqrt_ok by (simpl; lra). cbn [bind]. reflexivity.
-  - split.
-    + simpl. replace (4 * 1 / 1) with 4 by lra. exact S4.
-    + simpl. replace (1 / 1 / 1) with 1 by lra. rewrite sqrt_1. lra.
+  intros H1 H2. apply rwls_y_from_x_input in H1. apply rwls_x_from_y_input in H2.
+  destruct H1 as (_ & -> & _ & _). cbv zeta in H2. destruct H2 as (_ & -> & _ & _).
+  simpl. replace (ssr / d / 1) with (ssr / d) by (unfold Rdiv; rewrite Rinv_1; ring). reflexivity.
 Qed.
 
 (* ================= totality of the public functions ================= *)
